@@ -6,6 +6,7 @@ import (
 	"encoding/json"
 	"fmt"
 	"os"
+	"os/exec"
 	"path/filepath"
 	"sort"
 	"strings"
@@ -26,6 +27,9 @@ type Case struct {
 	Runs [][]int `json:"runs"`
 	// Fresh[i]: run i is executed in a fresh OS process (its result is compared with the other runs all the same)
 	Fresh []bool `json:"fresh"`
+	// Via "cli": (no runs) the tree is analysed by `coca analysis -p <dir>` as a separate process and identify.json /
+	// deps.json are read back, instead of calling the two apps in-process
+	Via string `json:"via"`
 }
 
 type KVObs struct {
@@ -173,6 +177,28 @@ func one(raw json.RawMessage) interface{} {
 		}
 		o.Types = project(nodes, root)
 		return o, nodes
+	}
+	if len(c.Runs) == 0 && c.Via == "cli" {
+		var ro RunObs
+		read := func(name string) PassObs {
+			b, err := os.ReadFile(filepath.Join(scratch, "coca_reporter", name))
+			var nodes []core_domain.CodeDataStruct
+			if err != nil || json.Unmarshal(b, &nodes) != nil {
+				return PassObs{Panic: true, Types: []TypeObs{}, Note: "cannot read " + name}
+			}
+			return PassObs{Types: project(nodes, "proj")}
+		}
+		cmd := exec.Command(os.Getenv("VERIF_COCA"), "analysis", "-p", "proj")
+		cmd.Dir = scratch
+		cmd.Env = append(os.Environ(), "TMPDIR="+scratch)
+		if out, err := cmd.CombinedOutput(); err != nil {
+			po := PassObs{Panic: true, Types: []TypeObs{}, Note: fmt.Sprint("coca analysis failed: ", err, " ", string(out))}
+			ro.Ident, ro.Full = po, po
+		} else {
+			ro.Ident, ro.Full = read("identify.json"), read("deps.json")
+		}
+		rec.Observed = append(rec.Observed, ro)
+		return rec
 	}
 	if len(c.Runs) == 0 {
 		var ro RunObs
